@@ -2,7 +2,7 @@
 (* Exhaustive check of the incremental forcing-in-time algorithm (C03, C10, C17) over every frame layout
    (gaps 1..4 incl. adjacent frames), every partition into files (incl. one frame per file), every start
    offset and run length, forward and reversed file traversal.  Layouts are grown by actions.       *)
-EXTENDS Frames, TLC
+EXTENDS Frames, TLC, Json
 CONSTANTS LO, HI, MAXFR, MAXFILES
 VARIABLES L, F, step, phase, rev
 vars == <<L, F, step, phase, rev>>
@@ -50,4 +50,7 @@ VelReadsOK == phase = "run" => \A r \in 1..Len(F.vreads) : /\ F.vreads[r].file =
                                                             /\ F.vreads[r].fif >= 0 /\ F.vreads[r].fif < CountIn(L.file, F.vreads[r].file)
 \* never reads beyond the layout; at most one velocity read per ordinary step
 ReadBudget == phase = "run" => Len(F.vreads) <= (IF step = -1 THEN 2 ELSE 1)
+\* layout emission for replay into the real forcing (GEN configuration): every small layout x partition x window x direction
+EmitLayout == (phase = "run" /\ step = -1) => PrintT(<<"SCN", ToJson([fs |-> L.fs, file |-> L.file, rev |-> rev, nsteps |-> L.nsteps])>>)
+OnlyStarts == phase = "build" \/ step = -1
 =============================================================================
